@@ -108,7 +108,7 @@ EXTRA = {
  'C17': ' Also the map-literal constructor ferret_map_from_pairs on 2 (3 thorough) symbolic pairs whose keys may coincide.',
  'C18': ' Also whole-value copies of byte-aligned composites of 2, 3, 6, 7 bytes (struct assigned into a fixed-array element, struct wrapped into / read out of an optional, discriminant set / cleared / set).',
  'C19': ' Non-ASCII comment text (2- and 3-byte UTF-8 characters): columns advance by characters, indices by bytes (gap harness and Position.Advance kernel).',
- 'C16': ' pow: INIT/STEP/EXIT on the real square-and-multiply loop for all four types (the 128-bit ones through their register ABI).',
+ 'C16': ' pow: INIT/STEP/EXIT on the real square-and-multiply loop for all four types (the 128-bit ones through their register ABI). Integer -> decimal text: to_string_ptr on every value of at most 2 (4 thorough) decimal digits incl. negative ones, and one step of the digit extraction (ferret_div_small_limbs) from an arbitrary limb state.',
 }
 for _k, _v in EXTRA.items():
     CHECKS[_k]['text'] += _v
